@@ -90,6 +90,11 @@ func checkValidity(c AlignCase, rm ref.Matrix, res alignResult, o *Obs) error {
 }
 
 func checkC08(c AlignCase, o *Obs) error {
+	if c.FirstCall != "" {
+		o.NT = true
+		o.Class("first call in a fresh process")
+		return runFirstCall(c.FirstCall)
+	}
 	m, rm, err := c.M.build()
 	if err != nil {
 		return nil // malformed replay file
@@ -248,6 +253,11 @@ func fixedMatrices(openValues []int, localOK bool) []MatSpec {
 }
 
 func exhaustiveC08(thorough bool, emit func(AlignCase) bool) {
+	for _, n := range []string{"Global-Levenshtein", "Local-BLOSUM62", "Global-PAM250"} {
+		if !emit(AlignCase{FirstCall: n}) {
+			return
+		}
+	}
 	if !realAlignCases([]int{0}, []int{1025}, emit) || !realAlignCases([]int{-2, -6}, nil, emit) {
 		return
 	}
@@ -278,6 +288,7 @@ func exhaustiveC08(thorough bool, emit func(AlignCase) bool) {
 
 func keyAlign(c AlignCase) []byte {
 	k := []byte(matDesc(c.M))
+	k = append(k, c.FirstCall...)
 	if c.Local {
 		k = append(k, 'L')
 	}
